@@ -6,7 +6,7 @@ import ast
 import re
 
 from ..cfg import cfg_of
-from ..core import AnalysisError, call_name, unparse, walk_no_nested
+from ..core import inline_locals, AnalysisError, call_name, unparse, walk_no_nested
 from ..packs import ord_pack
 from ..report import Ctx
 
@@ -86,7 +86,18 @@ if len(_N) != len(set(_N)):
         tests = [n for n in walk_no_nested(prep.node) if isinstance(n, ast.If) and unparse(n.test) == f'len({b["_N"]}) != len(set({b["_N"]}))']
         pub = [n for n in walk_no_nested(prep.node) if isinstance(n, ast.Assign) and unparse(n.targets[0]) == 'self.elementary_expressions']
         ok = len(tests) == 1 and len(pub) == 1 and cfgp.dominates(cfgp.node_of(tests[0]), cfgp.node_of(pub[0]))
-    ctx.add('C03.R3', 'IdManager.prepare:duplicates', ok, prep, 'a name used twice (within or across the five kinds) raises BiogemeError before the index table is published' if ok else 'the duplicate-name test (over the concatenation of all five kinds, raising BiogemeError) is missing or comes after the index table is published', 'duplicates')
+    partial = None
+    if not ok:
+        hb = find(prep.node, "if len(__L) != len(set(__L)):\n    ___\n    raise BiogemeError(__MSG)")
+        if hb is not None:
+            tested = unparse(inline_locals(prep.node, hb['__L'][1]))
+            kinds = ['self.free_betas.names', 'self.fixed_betas.names', 'self.random_variables.names', 'self.draws.names', 'self.variables.names']
+            terms = [t_.strip() for t_ in tested.replace('\n', ' ').split('+')]
+            if terms and all(t_ in kinds for t_ in terms) and set(terms) != set(kinds):
+                missing = [k_.split('.')[1] for k_ in kinds if k_ not in terms]
+                partial = f'the duplicate-name test covers {" + ".join(t_.split(".")[1] for t_ in terms)} only: a name shared with {", ".join(missing)} is accepted, and one of the two elements silently takes the index of the other'
+    ctx.add('C03.R3', 'IdManager.prepare:duplicates', ok if (ok or partial) else None, prep, 'a name used twice (within or across the five kinds) raises BiogemeError before the index table is published' if ok else
+            (partial or 'the duplicate-name test (over the concatenation of all five kinds, raising BiogemeError, before the index table is published) is not in the expected form'), 'duplicates', positive=bool(partial))
 
 
 _I = 'src/biogeme/expressions/idmanager.py'
